@@ -114,6 +114,14 @@ def main():
                   [("ia", "Ia", [("exec", "mint"), ("exec", "burn")])], [("exec", "zap"), ("exec", "burn"), ("exec", "aaa")]))
     cases.append(("order_iface_late_pass", "pass", "twin of order_iface_late_fail",
                   [("ia", "Ia", [("exec", "mint"), ("exec", "burn")])], [("exec", "zap"), ("exec", "burn2"), ("exec", "aaa")]))
+    # two interfaces sharing a name that is the alphabetically last message of only ONE of them, listed in both orders
+    for k in ("exec", "query", "sudo"):
+        cases.append((f"ii_mid_{k}_ab_fail", "fail", f"interfaces {{burn, mint}} then {{mint, transfer}} share {k} `mint`",
+                      [("ia", "Ia", [(k, "burn"), (k, "mint")]), ("ib", "Ib", [(k, "mint"), (k, "transfer")])], [(k, "own")]))
+        cases.append((f"ii_mid_{k}_ba_fail", "fail", f"the same two interfaces listed the other way round ({k})",
+                      [("ib", "Ib", [(k, "mint"), (k, "transfer")]), ("ia", "Ia", [(k, "burn"), (k, "mint")])], [(k, "own")]))
+    cases.append(("ii_mid_pass", "pass", "twin of ii_mid_*: {burn, mint} and {minz, transfer}",
+                  [("ia", "Ia", [("exec", "burn"), ("exec", "mint")]), ("ib", "Ib", [("exec", "minz"), ("exec", "transfer")])], [("exec", "own")]))
     gen_cases = []
     for k in ("exec", "query", "sudo"):
         gen_cases.append((f"generic_{k}_fail", "fail", f"generic contract never instantiated in this crate shares {k} `mint` with its interface",
